@@ -264,6 +264,8 @@ func (x *Exec) libCall(s *State, site ssa.Instruction, fn *ssa.Function, name st
 			// two parts exactly: second is the remainder
 			after := Substr(str, Add(idx, StrLen(sep)), Sub(StrLen(str), Add(idx, StrLen(sep))))
 			s.assume(Implies(And(sepNonEmpty, StrContains(str, sep), Not(StrContains(after, sep))), And(Eq(res.Len, Int(2)), Eq(Select(arr, Int(1)), after))))
+			// word-equation form of the first cut (cheap for the string solvers)
+			s.assume(Implies(And(sepNonEmpty, StrContains(str, sep)), Eq(str, Concat(Select(arr, Int(0)), sep, after))))
 			// a second separator: at least three parts, the second one is the text
 			// between the first two separators
 			idx2 := StrIndexOf(after, sep, Int(0))
